@@ -231,9 +231,17 @@ def check_lzma2(ck, prog):
     h = prog.fn("fill_window", "lz_encoder.c")
     ck.saw_function(h)
     domh = cfg.dominators(h)
-    skipb = [b.id for b, i, e in h.iter_elems() if any(
-        not c.get("fn") and ex.field_key(ex.strip(c["callee"])) and ex.field_key(ex.strip(c["callee"]))[1] == "skip"
-        for c in ex.calls(e, into_refs=False))]
+    def is_skip(c, depth=0):
+        if not c.get("fn"):
+            fk = ex.field_key(ex.strip(c["callee"]))
+            return bool(fk) and fk[1] == "skip"
+        # a static helper of the same file that makes the call (code extracted from fill_window)
+        for cand in prog.functions.get(c.get("fn"), []):
+            if cand.blocks and cand.static and cand.tu == h.tu and depth < 2:
+                if any(is_skip(c2, depth + 1) for b2, i2, e2 in cand.iter_elems() for c2 in ex.calls(e2, into_refs=False)):
+                    return True
+        return False
+    skipb = [b.id for b, i, e in h.iter_elems() if any(is_skip(c) for c in ex.calls(e, into_refs=False))]
     conds = [b.id for b in h.blocks.values() if b.term and "cond" in b.term and
              ex.show(b.term["cond"]) == "coder->mf.read_pos < coder->mf.read_limit"]
     ok3 = bool(skipb) and bool(conds) and all(any(c in domh.get(s, ()) for c in conds) for s in skipb)
